@@ -19,7 +19,7 @@ N_QUICK, N_THOROUGH = 480, 16000
 T_QUICK, T_THOROUGH = 80, 1500
 TARGETS = ["cpu_serial", "cpu_openmp", "opencl", "cuda"]
 BIT = {"cpu_serial": 1, "cpu_openmp": 2, "opencl": 4, "cuda": 8}
-FLOORS = {"sources": 200, "kernel_calls": 5000, "hit_counters_checked": 100000, "n_zero_calls": 150,
+FLOORS = {"sources": 100, "kernel_calls": 2500, "hit_counters_checked": 100000, "n_zero_calls": 150,
           "n_not_multiple_of_block": 150, "multi_block_kernels": 20, "include_lines": 30, "context_lines": 100,
           "passthrough_lines_checked": 2000, "nested_block_cases": 8, "launch_geometries_seen": 100,
           "expression_limits": 60, "kernels_inside_included_file": 40}
